@@ -279,7 +279,7 @@ class World:
 
             return Builtin(f"buffer.{kind}", f)
 
-        for kind in ("update_from_xbuffer", "update_from_buffer", "update_from_nplike", "update_from_native", "to_bytearray", "to_nplike", "to_nparray", "allocate"):
+        for kind in ("update_from_xbuffer", "update_from_buffer", "update_from_nplike", "update_from_native", "to_bytearray", "to_nplike", "to_nparray", "allocate", "free"):
             b.attrs[kind] = rec(kind)
         return b
 
